@@ -11,7 +11,7 @@
 //        e  TS<Int> whose node also has an error output of schema TS<Int> (native builder)
 //   node <lbl> <def> <k> <in>...      -> "n<i>" | "err"     value node, scalar k; defs:
 //        f1, g1 (TS<Int>) ; f2, g2 (TS<Int>, TS<Int>) ; t1 (TSL<TS<Int>,2>)
-//   sink <lbl> <def> <k> <in>...      -> "sink" | "err"     output-less node; defs k1 (TS<Int>), k2 (TS<Int>, TS<Int>)
+//   sink <lbl> <def> <k> <in>...      -> "sink" | "err"     output-less node; defs k0 (no input), k1 (TS<Int>), k2 (TS<Int>, TS<Int>)
 //        <in>   = [~][^]<body>        ~ = passive usage (passive(port));  ^ = rank-free input
 //                                     (WiringInputRef.rank_dependency = false)
 //        <body> = <elem> | [<elem>,<elem>]      the bracket form is a structural {x, y} initializer (t1 only, no ~)
@@ -103,6 +103,14 @@ namespace
     {
         static constexpr auto name = "hgv_in_t1";
         static void           eval(In<"a", PairL> a, Scalar<"k", Int> k, Out<TS<Int>> out) { out.set(k.value()); }
+    };
+    // an output-less node WITHOUT time-series inputs (a start-up beacon): still a side-effecting node that must
+    // never be shared, although its node kind is not "Sink" (that kind needs a time-series input)
+    struct K0
+    {
+        static constexpr auto name              = "hgv_in_k0";
+        static constexpr bool schedule_on_start = true;
+        static void           eval(Scalar<"k", Int> k) {}
     };
     struct K1
     {
@@ -357,7 +365,7 @@ int main()
                 prog.ents.emplace(lbl, ent);
                 std::cout << number(prog, ent.ref.peered_node()) << "\n";
             }
-            else if ((op == "node" || op == "sink") && tok.size() >= 5)
+            else if ((op == "node" || op == "sink") && tok.size() >= 4)
             {
                 const bool         sink = op == "sink";
                 const std::string &lbl  = tok[1];
@@ -370,7 +378,8 @@ int main()
                 else if (!sink && def == "t1") { arity = 1; wants_tsl = true; }
                 else if (sink && def == "k1") arity = 1;
                 else if (sink && def == "k2") arity = 2;
-                if (!prog.w || arity == 0 || tok.size() != 4 + arity || !is_label(lbl) || prog.used.count(lbl) || !k)
+                const bool beacon = sink && def == "k0";
+                if (!prog.w || (arity == 0 && !beacon) || tok.size() != 4 + arity || !is_label(lbl) || prog.used.count(lbl) || !k)
                 {
                     std::cout << "bad-op\n";
                     continue;
@@ -432,6 +441,7 @@ int main()
                         out = wire<T1>(w, ins[0].passive ? passive(port) : port, kv).erased();
                     }
                 }
+                else if (def == "k0") { name_next<K0>(w, lbl); wire<K0>(w, kv); }
                 else if (def == "k1") { name_next<K1>(w, lbl); wire<K1>(w, ts_port(w, ins[0]), kv); }
                 else { name_next<K2>(w, lbl); wire<K2>(w, ts_port(w, ins[0]), ts_port(w, ins[1]), kv); }
                 prog.used.insert(lbl);
